@@ -373,3 +373,103 @@ Example C02_example3_reads_as_the_document :
   | None => False
   end.
 Proof. exact example3_reads_as_the_document. Qed.
+
+(* ================================================================== round 5: continuations in any number, a missing final
+   newline -- both composed with the file-level theorem *)
+From PV Require Import Yanny.ContMany Yanny.NoFinalNL.
+Open Scope list_scope.
+
+(* ANY NUMBER of backslash continuations (CR-free text): a text cut at n places by continuations (backslash, blanks,
+   newline, indentation) reads like the text with one blank + the indentation at every cut *)
+Theorem C02_continuations_file : forall segs B,
+  Forall cseg_ok segs -> conts_heads_ok segs B -> mem CR (with_conts segs B) = false ->
+  parse (with_conts segs B) = parse (with_blanks segs B) /\ parse_binary (with_conts segs B) = parse_binary (with_blanks segs B).
+Proof. exact continuations_file. Qed.
+Print Assumptions C02_continuations_file.
+
+(* the head condition is met whenever every piece after a continuation starts with a non-blank (or is empty) *)
+Theorem C02_continuations_heads : forall segs B,
+  head_not_ws B -> Forall (fun s => head_not_ws (fst (fst s))) (tl segs) -> conts_heads_ok segs B.
+Proof. exact conts_heads_suff. Qed.
+Print Assumptions C02_continuations_heads.
+
+(* FILE LEVEL, round 5 (extends C02_layout_independence_partial2): every file of partial2 -- any skeleton of pairs, rows,
+   struct and enum typedefs in any admissible layout, every decoration of idec -- in which ANY NUMBER of its blank runs are
+   replaced by backslash continuations (with_blanks segs B is the file of partial2, with_conts segs B the file read) *)
+Theorem C02_layout_independence_partial3 : forall d tws l Ds segs B,
+  doc_ok d = true -> map fst tws = d_tables d -> tws_ok (d_enums d) tws ->
+  skel_ok d tws l -> idec (sy_of (d_enums d) tws) Ds (map sk_item l) -> Ds <> [] ->
+  Forall cseg_ok segs -> conts_heads_ok segs B -> mem CR (with_conts segs B) = false ->
+  with_blanks segs B = items_text Ds ->
+  exists p, sem d = Some p /\
+    parse (with_conts segs B) = Some (with_texts p (map ebtext (sk_enums l)) (map btext (sk_structs l))) /\
+    parse_binary (with_conts segs B) = Some (with_texts p (map ebtext (sk_enums l)) (map btext (sk_structs l))).
+Proof. exact layout_file_skeleton_conts. Qed.
+Print Assumptions C02_layout_independence_partial3.
+
+(* a MISSING FINAL NEWLINE: any text of well-formed items whose last line is not terminated reads like the terminated one *)
+Theorem C02_no_final_newline : forall its l, Forall item_good (its ++ [ILine l]) -> l <> [] ->
+  parse (items_text its ++ l) = parse (items_text (its ++ [ILine l])) /\
+  parse_binary (items_text its ++ l) = parse_binary (items_text (its ++ [ILine l])).
+Proof. exact no_final_newline. Qed.
+Print Assumptions C02_no_final_newline.
+
+(* FILE LEVEL: every file of partial2 whose last item is a line (a pair, a data row in any layout, a comment), that line
+   NOT terminated by a newline *)
+Theorem C02_layout_independence_no_final_newline : forall d tws l Ds0 ll,
+  doc_ok d = true -> map fst tws = d_tables d -> tws_ok (d_enums d) tws ->
+  skel_ok d tws l -> idec (sy_of (d_enums d) tws) (Ds0 ++ [ILine ll]) (map sk_item l) -> ll <> [] ->
+  exists p, sem d = Some p /\
+    parse (items_text Ds0 ++ ll) = Some (with_texts p (map ebtext (sk_enums l)) (map btext (sk_structs l))) /\
+    parse_binary (items_text Ds0 ++ ll) = Some (with_texts p (map ebtext (sk_enums l)) (map btext (sk_structs l))).
+Proof. exact layout_file_skeleton_nonl. Qed.
+Print Assumptions C02_layout_independence_no_final_newline.
+
+(* ---- non-vacuity (C02/Proofs.v, the ex4 definitions): typedef, pair, then the decorated data row as the last, unterminated
+   line; and the same file with two continuations inside that row ---- *)
+Example C02_example4_skeleton : skel_ok ex_doc ex_tws ex4_skel.
+Proof. exact example4_skeleton. Qed.
+Example C02_example4_layout : idec (sy_of (d_enums ex_doc) ex_tws) (ex4_items0 ++ [ILine ex_row]) (map sk_item ex4_skel).
+Proof. exact example4_layout. Qed.
+Example C02_example4_no_final_newline :
+  ex_row <> [] /\
+  match sem ex_doc with
+  | Some p => parse (items_text ex4_items0 ++ ex_row) = Some (with_texts p [] [td_text KW_STRUCT ex2_body ex2_name])
+  | None => False
+  end.
+Proof. exact example4_no_final_newline. Qed.
+Example C02_example4_continuations :
+  with_blanks ex4_segs ex4_B = items_text ex4_items /\ Forall cseg_ok ex4_segs /\ conts_heads_ok ex4_segs ex4_B /\
+  mem CR (with_conts ex4_segs ex4_B) = false /\
+  match sem ex_doc with
+  | Some p => parse (with_conts ex4_segs ex4_B) = Some (with_texts p [] [td_text KW_STRUCT ex2_body ex2_name])
+  | None => False
+  end.
+Proof. exact example4_continuations. Qed.
+Example C02_continuations_example : Forall cseg_ok conts_ex_segs /\ conts_heads_ok conts_ex_segs conts_ex_B /\
+  mem CR (with_conts conts_ex_segs conts_ex_B) = false /\
+  with_conts conts_ex_segs conts_ex_B = bs "FOO 1\ "%string ++ [NL] ++ bs "  2\"%string ++ [NL; TAB] ++ bs "3"%string ++ [NL] /\
+  with_blanks conts_ex_segs conts_ex_B = bs "FOO 1   2 "%string ++ [TAB] ++ bs "3"%string ++ [NL].
+Proof. exact conts_example. Qed.
+
+(* round 5 defect (replayed on the real code: dtype S11; repair fixes/C02-enum-block-comments.diff): without the repair a comment
+   inside an ENUM block is taken into the next label, so the enum column is sized by the comment; the reader model follows the
+   source shape through the generated flag yanny_enum_strips_comments, so this example holds for both shapes *)
+Example C02_enum_block_comment_changes_the_width :
+  option_map (fun p => map (fun t => map pc_np (pt_cols t)) (pd_tables p)) (parse ex5_text)
+  = Some [[NS (if PV.Generated.YannyLits.yanny_enum_strips_comments then 5 else 11); NI4]].
+Proof. exact enum_block_comment_changes_the_width. Qed.
+
+(* round 5, the repaired shape of isenum() (Parse.drop_hash_comments, used by Parse.enum_entry iff the generated flag
+   yanny_enum_strips_comments is true): a comment after hash-free text inside an enum block reads as nothing, its line end
+   stays -- so the labels are those of the block without the comment *)
+From PV Require Import Yanny.EnumComments.
+Theorem C02_enum_block_comment_dropped : forall a c r, mem HASH a = false -> mem NL c = false ->
+  drop_hash_comments false (a ++ HASH :: c ++ NL :: r) = a ++ NL :: drop_hash_comments false r.
+Proof. exact enum_comment_dropped. Qed.
+Print Assumptions C02_enum_block_comment_dropped.
+
+Theorem C02_enum_block_comment_free : forall a c r, mem HASH a = false -> mem NL c = false -> mem HASH r = false ->
+  enum_body_of true (a ++ HASH :: c ++ NL :: r) = enum_body_of true (a ++ NL :: r).
+Proof. exact enum_body_comment_free. Qed.
+Print Assumptions C02_enum_block_comment_free.
